@@ -27,6 +27,10 @@ type C14TransportCase struct {
 	Buf  int      `json:"buf"`
 	IDs  []string `json:"ids"`
 	Cut  int      `json:"cut"` // the stream is fed in chunks of this many bytes (0: one chunk per message)
+	// Bad[k] != "": a Heartbeat that fails the integrity check ("checksum", "checksum-spelling", "bodylength")
+	// precedes request k on the stream; it gets its Reject and the request behind it its answer
+	Bad   []string `json:"bad,omitempty"`
+	BadBy []int    `json:"bad_by,omitempty"`
 }
 
 func genC14Transport(t *rapid.T) *C14TransportCase {
@@ -52,6 +56,12 @@ func genC14Transport(t *rapid.T) *C14TransportCase {
 		unit := rapid.SampledFrom([]string{"x", "10=", "ab=", "9", " "}).Draw(t, "unit")
 		id := strings.Repeat(unit, n/len(unit)+1)[:n]
 		c.IDs = append(c.IDs, id)
+		bad := ""
+		if rapid.IntRange(0, 3).Draw(t, "badBefore") == 0 {
+			bad = rapid.SampledFrom([]string{"checksum", "checksum-spelling", "checksum-spelling", "bodylength"}).Draw(t, "badKind")
+		}
+		c.Bad = append(c.Bad, bad)
+		c.BadBy = append(c.BadBy, rapid.IntRange(0, 300).Draw(t, "badBy"))
 	}
 	return c
 }
@@ -102,7 +112,12 @@ func checkC14Transport(c *C14TransportCase, rec *evid.Rec) (vs []pbt.Violation) 
 		feed((&rig.InMsg{Type: rig.TLogon, Seq: fmt.Sprint(seq), Fields: []rig.Tok{rig.F(rig.TagEncryptMethod, "0"), rig.F(rig.TagHeartBtInt, "30"),
 			rig.F(rig.TagUsername, "alice"), rig.F(rig.TagPassword, "secret")}}).Bytes())
 		synctest.Wait()
-		for _, id := range c.IDs {
+		for k, id := range c.IDs {
+			if k < len(c.Bad) && c.Bad[k] != "" {
+				seq++
+				feed((&rig.InMsg{Type: rig.THeartbeat, Seq: fmt.Sprint(seq), Damage: c.Bad[k], DamageBy: c.BadBy[k]}).Bytes())
+				synctest.Wait()
+			}
 			seq++
 			feed((&rig.InMsg{Type: rig.TTestRequest, Seq: fmt.Sprint(seq), Fields: []rig.Tok{rig.F(rig.TagTestReqID, id)}}).Bytes())
 			synctest.Wait()
@@ -123,8 +138,17 @@ func checkC14Transport(c *C14TransportCase, rec *evid.Rec) (vs []pbt.Violation) 
 	}
 	msgs, _ := ref.Split(stream, "10")
 	var echoed []string
+	rejects, bads := 0, 0
+	for _, b := range c.Bad {
+		if b != "" {
+			bads++
+		}
+	}
 	for _, m := range msgs {
 		o := rig.Decode(m)
+		if o.Type == rig.TReject {
+			rejects++
+		}
 		if o.Type == rig.THeartbeat {
 			if id, ok := o.Get(rig.TagTestReqID); ok {
 				echoed = append(echoed, id)
@@ -140,6 +164,12 @@ func checkC14Transport(c *C14TransportCase, rec *evid.Rec) (vs []pbt.Violation) 
 			vs = append(vs, pbt.V("transport:echo-differs", "%s: TestReqID of %d bytes came back as %d bytes", c.Role, len(id), len(echoed[k])))
 			break
 		}
+	}
+	if rejects != bads && len(vs) == 0 {
+		vs = append(vs, pbt.V("transport:reject-count", "%s, buf %d, chunk %d: %d Heartbeats that fail the integrity check (%v) were on the stream, %d Reject messages came back", c.Role, c.Buf, c.Cut, bads, c.Bad, rejects))
+	}
+	if bads > 0 {
+		rec.Hist("transport:damaged-message-ahead-of-a-request")
 	}
 	long := false
 	for _, id := range c.IDs {
